@@ -95,3 +95,11 @@ func ModelAllOpensSynced() bool
 // DeferGoroutines selects the sequential scheduling policy: false = a new goroutine runs at
 // once until it blocks or ends (default); true = it runs only once its creator blocks or ends.
 func DeferGoroutines(on bool)
+
+// String is a string of n symbolic ASCII bytes (each in 1..127).
+func String(name string, n int) string
+
+// OneOf is one of the given strings, selected symbolically.
+func OneOf(name string, table ...string) string
+func EqualFold(a, b string) bool
+func IteBool(c, a, b bool) bool
